@@ -934,6 +934,8 @@ func c09SuccessAfterCommit(c *Ctx, rule string, exempt map[string]string, commit
 	for _, k := range committers {
 		gs = append(gs, k+"(*) == nil")
 	}
+	// an append that walked no rows (Count == 0) staged nothing: reporting success without a commit is correct there
+	gs = append(gs, "*.Count == 0")
 	guard := strings.Join(gs, " || ")
 	for _, fn := range c.P.AllFuncs {
 		if len(instrsMatching(fn, CallTo{c09EngNew})) == 0 {
